@@ -1,2 +1,4 @@
 import WrglModel.Props.C20
-#print axioms Wrgl.C20_placeholder
+#print axioms Wrgl.C20_membership
+#print axioms Wrgl.C20_flush_inv
+#print axioms Wrgl.C20_has_exact
